@@ -107,7 +107,14 @@ def _table(tab):
         # pass 1: every client alone in a fresh fork;  pass 2: all of them one after another in ONE daemon (a client's class
         # must not depend on the clients classified before it)
         seq_outs = []
-        for order in (list(range(len(cl))), list(range(len(cl) - 1, -1, -1))):       # forward and reverse: every kind of client also follows every other kind
+        # forward and reverse (every kind of client also follows every other kind at some distance), and "siblings": every client directly after the one
+        # that differs from it in ONE attribute only - the address, the account, the host - so that whatever a rule scan remembers about the previous client
+        # meets the client most like it
+        def sib(*slow):
+            return sorted(range(len(cl)), key=lambda k: tuple(str(cl[k][a]) for a in slow))
+        orders = [list(range(len(cl))), list(range(len(cl) - 1, -1, -1)),
+                  sib('account', 'ident', 'host', 'ok', 'claimed', 'addr')[::-1], sib('addr', 'ident', 'host', 'ok', 'claimed', 'account'), sib('account', 'addr', 'ident', 'ok', 'claimed', 'host')]
+        for order in orders:
             seq_events = []
             for pos, k in enumerate(order):
                 seq_events += client_events(cl[k], 100 + k, pos + 1)
@@ -118,7 +125,8 @@ def _table(tab):
                 so = None
             seq_outs.append(so)
         for k, c in enumerate(cl):
-          for cid, out, mode in ((1, None, 'alone'), (100 + k, seq_outs[0], 'as number %d of all clients in sequence' % (k + 1)), (100 + k, seq_outs[1], 'as number %d of all clients in reverse sequence' % (len(cl) - k))):
+          for cid, out, mode in [(1, None, 'alone'), (100 + k, seq_outs[0], 'as number %d of all clients in sequence' % (k + 1)), (100 + k, seq_outs[1], 'as number %d of all clients in reverse sequence' % (len(cl) - k))] + \
+                                [(100 + k, seq_outs[n], 'in sibling order %d, right after the client that differs in one attribute' % (n - 1)) for n in (2, 3, 4)]:
             lines = client_lines(c)
             if out is None and mode != 'alone':
                 continue
